@@ -624,4 +624,5 @@ func main() {
 	writeIfChanged(filepath.Join(outdir, "Layout.v"), genLayout(pkgs))
 	writeIfChanged(filepath.Join(outdir, "PanicSites.v"), genPanicSites(pkgs))
 	writeIfChanged(filepath.Join(outdir, "SharedState.v"), genSharedState(pkgs))
+	writeIfChanged(filepath.Join(outdir, "GoAst.v"), genGoAst(pkgs))
 }
